@@ -610,6 +610,34 @@ func registryScen() {
 		}}
 		return &built{newShared: func() any { return nil }, threads: threads22(get, prim, ser, newkd), probes: []call{getBad, prim, ser}}
 	})
+	add("registry-newhandle-and-jwk", func() *built {
+		jpriv := handleFrom(jwt.ES256Template())
+		jpub := must(jpriv.Public())
+		nh := func(n string, t *tinkpb.KeyTemplate) call {
+			return call{"keyset.NewHandle(" + n + ")", func(any) string {
+				hd, err := keyset.NewHandle(t)
+				if err != nil {
+					return "ERR:" + err.Error()
+				}
+				return renderHandle(hd, nil)
+			}}
+		}
+		jwk := call{"JWKSetFromPublicKeysetHandle", func(any) string { return render(jwt.JWKSetFromPublicKeysetHandle(jpub)) }}
+		jwkBack := call{"JWKSetToPublicKeysetHandle", func(any) string {
+			js, err := jwt.JWKSetFromPublicKeysetHandle(jpub)
+			if err != nil {
+				return "ERR:" + err.Error()
+			}
+			hd, err := jwt.JWKSetToPublicKeysetHandle(js)
+			if err != nil {
+				return "ERR:" + err.Error()
+			}
+			return fmt.Sprint(hd.Len())
+		}}
+		return &built{newShared: func() any { return nil },
+			threads: threads22(nh("AES128GCM", aead.AES128GCMKeyTemplate()), jwk, nh("HMAC", mac.HMACSHA256Tag128KeyTemplate()), jwkBack),
+			probes:  []call{jwk}}
+	})
 	s := add("registry-kms-clients", func() *built {
 		c1 := must(fakekms.NewClient("fake-kms://a"))
 		c2 := must(fakekms.NewClient("fake-kms://"))
